@@ -164,6 +164,11 @@ func C16(p *core.Prog, r *core.Report) {
 			} else {
 				r.Bad("LAYOUT", key+"|loops", p.Pos(lf.fd.Pos()), fmt.Sprintf("loop steps %v / bounds %v disagree with NewOrigin's lines of %d in groups of %d", lf.steps, lf.bounds, L, G))
 			}
+		} else if n == "NewOrigin" || n == "Origin.Bytes" || n == "validateOrigin" || n == "slowGenBankOriginParser" {
+			// the four functions that walk a block must do so by the layout's columns: a decoder that
+			// recognises the index or the group separators by their characters (TrimLeft with a cut set,
+			// Fields, Split) takes residues that look like them for layout
+			r.Und("LAYOUT", key+"|loops", p.Pos(lf.fd.Pos()), "the block is not walked by two stepped loops (lines of L residues, groups of G): the column layout - the only thing that tells an index digit or a separating blank from a residue - is not what this function goes by")
 		}
 		// constants
 		var bad []int64
@@ -325,6 +330,7 @@ func C16(p *core.Prog, r *core.Report) {
 		})
 	}
 	// GUARD-MIN: (*Origin).Bytes treats a block as empty exactly when it is shorter than the smallest non-empty block (W+3 bytes)
+	originParsed(p, r, fns["Origin.Bytes"])
 	r.Rule("GUARD-MIN", "(*Origin).Bytes returns no residues exactly for blocks shorter than the smallest non-empty block, W+3 bytes (index, space, one residue, newline)", 1)
 	if ob := fns["Origin.Bytes"]; ob != nil {
 		info := p.Info(core.PkgSeqio)
@@ -502,4 +508,63 @@ func names2(m map[string]*layoutFn) []string {
 	}
 	sort.Strings(out)
 	return out
+}
+
+// originParsed decides ORIGIN-PARSED on (*Origin).Bytes. Buffer holds the
+// formatted block until the first call and the decoded residues afterwards
+// (Parsed). Everything that reads Buffer as a block - the minimum-length guard,
+// fromOriginLength, the decoding loops - belongs to the not-yet-parsed state:
+// on every path on which Parsed has not been found false, the method returns
+// o.Buffer and nothing else. A block guard hoisted in front of the state test
+// is applied to residues: a record of 1..11 residues decodes correctly once
+// and reads as empty from the second call on.
+func originParsed(p *core.Prog, r *core.Report, ob *layoutFn) {
+	r.Rule("ORIGIN-PARSED", "in (*Origin).Bytes every return reached without the fact `Parsed == false` on its path returns the receiver's Buffer as it is: the block-length guard and the decoder apply to the formatted state only", 1)
+	key := "seqio.Origin.Bytes"
+	if ob == nil || ob.fd == nil || ob.fd.Recv == nil || len(ob.fd.Recv.List) != 1 || len(ob.fd.Recv.List[0].Names) != 1 {
+		r.Und("ORIGIN-PARSED", key+"|anchor", "-", "anchor-unresolved")
+		return
+	}
+	info := p.Info(core.PkgSeqio)
+	recv := info.Defs[ob.fd.Recv.List[0].Names[0]]
+	isField := func(e ast.Expr, name string) bool {
+		se, ok := ast.Unparen(e).(*ast.SelectorExpr)
+		return ok && se.Sel.Name == name && core.ObjOf(info, se.X) == recv
+	}
+	fl := core.NewFlow(info, ob.fd.Body)
+	var bad *ast.ReturnStmt
+	// state: 0 = Parsed may be true, 1 = Parsed known false (the formatted state)
+	core.Scan(fl, fl.Entry(), 0, core.Stepper[int]{
+		Node: func(s int, n ast.Node) (int, bool) {
+			if as, ok := n.(*ast.AssignStmt); ok {
+				for i, l := range as.Lhs {
+					if isField(l, "Parsed") && i < len(as.Rhs) {
+						if tv, has := info.Types[as.Rhs[i]]; has && tv.Value != nil && tv.Value.String() == "true" {
+							return 0, false
+						}
+					}
+				}
+			}
+			if rs, ok := n.(*ast.ReturnStmt); ok {
+				if s == 0 && !(len(rs.Results) == 1 && isField(rs.Results[0], "Buffer")) && bad == nil {
+					bad = rs
+				}
+				return s, true
+			}
+			return s, false
+		},
+		Edge: func(s int, cond ast.Expr, taken bool) int {
+			core.Facts(cond, taken, func(atom ast.Expr, val bool) {
+				if isField(atom, "Parsed") && !val {
+					s = 1
+				}
+			})
+			return s
+		},
+	})
+	if bad != nil {
+		r.Bad("ORIGIN-PARSED", key, p.Pos(bad.Pos()), "a return that does not hand out o.Buffer is reachable while Parsed may be true: the test in front of it reads the decoded residues as if they were a formatted block (a record of fewer than 12 residues decodes once and is empty from the second Bytes() on)")
+	} else {
+		r.Ok("ORIGIN-PARSED", key, p.Pos(ob.fd.Pos()), "block-level tests and the decoder run only where Parsed is false")
+	}
 }
